@@ -440,7 +440,20 @@ def run_c30(chk):
         rnd.append(case_line(cid, chain, rng.choice([None, random_name(rng)]), rng.choice(["dir", "trail", "defdir", "cwd", "file"]), size, rng.randrange(10 ** 6),
                              rng.choice(["-", "-", "-", "direct", "transport", "ctl"]), 1))
         cid += 1
-    run_and_validate(chk, [("tlc-paths", tlc_lines), ("random-chains", rnd)], "inproc", design=design, shards=8 if thorough else 4)
+    # the destination already exists and the user confirms the overwrite at a terminal (stdin is a pty on which "y" was typed): a reply
+    # that fails the check must leave nothing of itself there either
+    pre = []
+    for p in PATHS:
+        for resp in (["correct"] + HOSTILE + (["nopayload", "shortstream"] if p in ("control", "fallback", "local") else [])):
+            hop = (p, resp)
+            size = max(2, rng.choice([5, 40, 70000]))
+            pre.append(case_line(cid, [hop], rng.choice([None, b"payload.bin"]), "file", size, rng.randrange(10 ** 6), "-", 1) + " pre=1")
+            cid += 1
+    if not thorough:
+        keep = [ln for ln in pre if ":correct" in ln]
+        rest = [ln for ln in pre if ":correct" not in ln]
+        pre = keep[:3] + rng.sample(rest, min(len(rest), 14))
+    run_and_validate(chk, [("tlc-paths", tlc_lines), ("random-chains", rnd), ("overwrite-existing-destination", pre)], "inproc", design=design, shards=8 if thorough else 4)
     if thorough:
         exe = build("ephcli")
         sub = rng.sample(tlc_lines, min(len(tlc_lines), 240)) + rng.sample(rnd, min(len(rnd), 60))
